@@ -8,7 +8,7 @@ from dliswriter.utils.enums import FrameIndexType
 from dliswriter.logical_record.eflr_types.channel import ChannelSet, ChannelItem
 from dliswriter.logical_record.core.attribute import (Attribute, EFLRAttribute, NumericAttribute, TextAttribute,
                                                       IdentAttribute)
-from dliswriter.utils.source_data_wrappers import SourceDataWrapper
+from dliswriter.utils.source_data_wrappers import SourceDataWrapper, check_float_cast
 from dliswriter.configuration import global_config
 
 
@@ -112,6 +112,7 @@ class FrameItem(EFLRItem):
         index_data = data[index_channel.name][:]
         if index_channel.cast_dtype is not None and index_data.dtype != index_channel.cast_dtype:
             # the index is written in the cast dtype: that is what its min, max and spacing describe
+            check_float_cast(index_data, index_channel.cast_dtype, name=f"Data of {index_channel}")
             index_data = index_data.astype(index_channel.cast_dtype)
 
         if self.index_type.value is None:
